@@ -57,6 +57,10 @@ CHECKS = {
  "C17": dict(cat="fault_enumeration", tech="generated stall + registration-queue overflow on one topic of a fresh real server (non-reading subscriber, flooding publishers, b registrations before and n after the stall, n around and above the queue capacity), cross-topic probe with raw peers and the client library",
      text="After topic A is provably stalled (its publishers are back-pressured) and more registrations than the router's queue holds are made on it, a publisher/subscriber pair on topic B (raw and through the client library) must still register and exchange a message; a control exchange on B before the stall must have succeeded in the same case.",
      note="One stall mechanism; the violating behaviour is a dead-lock, so the 12 s deadline is not a race.", ref="§5 C17"),
+
+ "C15": dict(cat="exploration", tech="complete enumeration of the identity matrix (client identity x server identity x stream kind) with freshly generated keys per run, against the real server and client library / a raw certificate-less peer",
+     text="Exactly the pairing where both sides hold certificates from the generated CA registers streams and completes an exchange; a client with a certificate from another CA, a self-signed one or none is never answered Ok and nothing it publishes reaches a trusted subscriber; a client never talks to a server whose certificate comes from another CA (isolated by a server that still verifies clients against the trusted CA).",
+     note="Finite configuration space enumerated completely (exhaustive: true); expiry, revocation and key-usage variants are outside the property.", ref="§5 C15"),
 }
 PENDING = {}
 ALL = ["C%02d" % i for i in range(1, 18)]
